@@ -9,7 +9,7 @@ open Kv Drv
     ks.*                                                  published key set
     hint=0|1 [+ t.* c.* j.* s<i>.* : the hint as the parsers see it]   cid= plu= state=   formerr=0|1
     pm.n / pm.<i>.{g,r}      path.Match(g, plu) for every glob of every client: r = 1 | 0 | err
-    up.n / up.<i>.{s,ok,base,frag,lossy,qn,q.<j>.k,q.<j>.v}            url.Parse of the default URI and of plu
+    up.n / up.<i>.{s,ok,base,rawq,fq,frag,unread,qn,q.<j>.k,q.<j>.v}            url.Parse of the default URI and of plu
     obs=redirect|err|panic  o.loc  o.status  o.err   od.*  (Location as net/url decodes it)   term.n term.<i>.{u,c}
 -/
 namespace Drv.C18
@@ -24,7 +24,8 @@ def parseClients (l : Line) : List OPClient :=
 
 def parseURL (l : Line) (p : String) : Go.R SessURL :=
   if bool l (p ++ "ok") then
-    .ok { base := str l (p ++ "base"), frag := str l (p ++ "frag"), lossy := bool l (p ++ "lossy"),
+    .ok { base := str l (p ++ "base"), frag := str l (p ++ "frag"), rawQuery := str l (p ++ "rawq"), forceQuery := bool l (p ++ "fq"),
+          unread := list l (p ++ "unread"),
           query := (List.range (nat l (p ++ "qn"))).map fun j =>
             (str l (p ++ "q." ++ toString j ++ ".k"), list l (p ++ "q." ++ toString j ++ ".v")) }
   else .error "parse"
